@@ -93,6 +93,28 @@ register("C07", "other",
          "Q1 is an assumed contract of a dependency, validated only on the listed circuits; the unbounded quantifier is therefore proved relative to Q1 only.",
          "frame obligation + reduction lemma under assumed dependency contract; exhaustive small / seeded long circuits against tableau oracle", "DESIGN.md 5 (C07)")
 
+TOMO = ("The fitter's control flow is concrete once circuit and qubit list are fixed; the real code is executed on symbolic count objects (exact linear "
+        "forms, one symbol per outcome; branching on one raises) and every returned value - an exact quotient of linear forms - is compared by normal "
+        "form with sigma*sum_b(-1)^(s.b)c_b/sum_b c_b where U P U^dagger = sigma Z^s comes from the independent tableau oracle. Both sides are linear in "
+        "the outcome distribution, so by M7 the equality holds for every density matrix without sampling states. ")
+
+register("C09", "proof",
+         "Contracts on get_mubs/get_mub_circuits/get_mub_info/MUBInfo discharged on the complete finite domain: 20 files x all 2^n+1 bases x all 2^n group "
+         "elements (validity, exact-count partition of the 4^n-1 Paulis, diagonalisation by the oracle, alignment with the file lines by an independent "
+         "reader, info arithmetic, cost <= the library's own readout circuit).", TRUST, "exhaustive enumeration under contracts (GROUND) + tableau oracle", "DESIGN.md 5 (C09)")
+
+register("C10", "proof", TOMO + "All 20 configurations, all 2^n+1 circuits, all outcome masks; the density-matrix map is linear in the values and checked on every basis "
+         "vector e_P (n<=4 quick, n<=5 thorough).", TRUST + " Exact statistics; floats treated as reals; Q2/Q5/Q6 assumed (misreadings surface as refuted obligations).",
+         "native symbolic execution over exact linear forms + normal-form comparison with oracle pull-back", "DESIGN.md 5 (C10-C12)")
+
+register("C11", "proof", TOMO + "Marginalisation contract of CircuitResult.__init__ discharged on all keys of N<=5 bits x all ordered qubit subsets; subset tomography and "
+         "stabilizer measurement over the full 2^N outcome space for N=3..5, all ordered 2- and 3-subsets (some seeded), both key modes.",
+         TRUST + " N<=5 (6 thorough); exact statistics; Q2/Q5/Q6 assumed.", "exhaustive marginalisation contract + native symbolic execution over linear forms", "DESIGN.md 5 (C10-C12)")
+
+register("C12", "proof", TOMO + "Every class of every configuration (one seeded signed member each; all classes for n<=5 in quick, 120 per 6-qubit configuration), keys must be "
+         "exactly the unsigned elements of the given group.", TRUST + " Exact statistics; Q2/Q5/Q6 assumed; other members of a class via C03.",
+         "native symbolic execution over exact linear forms + normal-form comparison with oracle pull-back", "DESIGN.md 5 (C10-C12)")
+
 NOT_APPLICABLE = []   # every property is claimed; sub-claims outside the family's reach are labelled in the evidence
 
 
